@@ -48,7 +48,7 @@ NEUTRAL = {4, 7, 9, 10, 11, 12}        # units that neither define nor use file/
 def meta(tier):
     q = tier == 'quick'
     return {
-        'rule': 'every program of up to L units over the 13-unit alphabet x every contiguous block (i,j) moved into inc.asm x every '
+        'rule': 'include file names that contain the name of a preprocessor symbol (6 names x 3 definition sources x {main file, nested include}: the named file is pasted, a missing one stays missing); every program of up to L units over the 13-unit alphabet x every contiguous block (i,j) moved into inc.asm x every '
                 'sub-block of it moved into inc2.asm; judged against the reference include semantics (fresh file scope, GLOBAL zone '
                 'inside, includer zone and local region resumed, mute state carried) and, for scope/zone-neutral blocks cut while '
                 'GLOBAL is selected, differentially against the real assembly of the unsplit program; plus a placement product '
@@ -59,7 +59,7 @@ def meta(tier):
                    'cuts': 'all 0<=i<j<=L, nested all i<=k<l<=j (quick: nested only for L<=3)'},
         'assumptions': ['reference model: mc/refasm.py', 'a conditional chain is never split across files (units are whole chains)'],
         'floors': {'evaluations': 1000, 'nontrivial': 100, 'statuses': ['OK', 'REJECT'],
-                   'clauses': ['split-accepted', 'split-rejected', 'differential', 'placement-rejected', 'placement-accepted', 'graph-accepted', 'graph-rejected', 'dead-include-accepted', 'dead-include-rejected']},
+                   'clauses': ['split-accepted', 'split-rejected', 'differential', 'placement-rejected', 'placement-accepted', 'graph-accepted', 'graph-rejected', 'dead-include-accepted', 'dead-include-rejected', 'name-not-rewritten']},
         'nshards': 64,
     }
 
@@ -122,6 +122,7 @@ def shard(acc, tier, idx, n):
     include_graphs(acc, idx, n)
     dead_includes(acc, idx, n)
     linked_includes(acc, idx, n)
+    symbols_and_file_names(acc, idx, n)
 
 
 def judge_equal(spec, outs):
@@ -288,6 +289,48 @@ def dead_includes(acc, idx, n):
                 acc.state(('d', seq, wname))
                 if ctr % 101 == 0:
                     acc.sample({'files': {k: R.render(v) for k, v in files.items()}, 'reference': spec})
+
+
+def symbols_and_file_names(acc, idx, n):
+    """The name between the quotes of an #include line is a file name, not program text: a preprocessor symbol (from #define, -D or the
+    definition) spelled like a part of that name changes nothing - the named file is pasted in, and a missing file stays missing even
+    when the rewritten name would exist."""
+    ctr = 0
+    rows = [
+        # (symbol, replacement, included name, files besides main, body of the included file, bytes it contributes, accepted?)
+        ('board', '7', 'board.asm', {'7.asm': '    .byte $55\n'}, '    .byte 9, board\n', [9, 7], True),
+        ('DEBUG', '9', 'lib-DEBUG.asm', {'lib-9.asm': '    .byte $55\n'}, '    .byte DEBUG\n', [9], True),
+        ('asm', 'txt', 'tab.asm', {'tab.txt': '    .byte $55\n'}, '    .byte 3\n', [3], True),
+        ('v2', '3', 'cpu.v2.asm', {'cpu.3.asm': '    .byte $55\n'}, '    .byte v2\n', [3], True),
+        ('absent', 'present', 'absent.asm', {'present.asm': '    .byte $55\n'}, None, None, False),
+        ('gone', '5', 'gone.asm', {'5.asm': '    .byte $55\n'}, None, None, False),
+    ]
+    for (sym, repl, fname, extra, body, contrib, ok), src, where in itertools.product(rows, ('define', 'cli', 'isa'), ('main', 'nested')):
+        ctr += 1
+        if ctr % n != idx:
+            continue
+        head = [f'#define {sym} {repl}'] if src == 'define' else []
+        inc = f'#include "{fname}"'
+        files = dict(extra)
+        if body is not None:
+            files[fname] = body
+        if where == 'main':
+            files['main.asm'] = '\n'.join(head + ['    .byte $50', inc, '    .byte $EE']) + '\n'
+        else:
+            files['main.asm'] = '\n'.join(head + ['    .byte $50', '#include "mid.asm"', '    .byte $EE']) + '\n'
+            files['mid.asm'] = inc + '\n'
+        isa = probe_isa(16, 'little', symbols=[{'name': sym, 'value': repl}] if src == 'isa' else None)
+        case = Case(isa, files, defines=(f'{sym}={repl}',) if src == 'cli' else ())
+        out = acc.run(case)
+        acc.transition()
+        if ok:
+            spec = {'expect': 'OK', 'image_hex': bytes([0x50] + contrib + [0xEE]).hex(), 'why': f'{fname} is pasted in place'}
+        else:
+            spec = {'expect': 'REJECT', 'why': f'{fname} does not exist'}
+        msg = judge_expect(spec, [out])
+        if msg:
+            acc.violation([case], spec, f'#include "{fname}" while {sym} is a symbol ({src}) meaning {repl}, include line in {where}: {msg}', [out])
+        acc.judge(clause='name-not-rewritten', nontrivial_key=('symname', sym, src, where))
 
 
 def linked_includes(acc, idx, n):
